@@ -12,6 +12,8 @@ theorem nodes_rebuilt :
 
 theorem no_crash_kinds : noCrashKinds tables = true := by decide +kernel
 
+theorem unnamed_by_hand : unnamedByHand tables = true := by decide +kernel
+
 theorem fields_unique :
     tables.structs.all (fun d => d.fields.all (fun f =>
       (d.fields.find? (fun g => g.name == f.name)).map (·.name) == some f.name
